@@ -83,3 +83,18 @@ Lemma gc_idem_seq cmds s e sp :
   let st1 := fst (step (run cmds) (GC s e sp)) in
   snd (step st1 (GC s e sp)) = snd (step (run cmds) (GC s e sp)) /\ forall k, get_ks (fst (step st1 (GC s e sp))) k = get_ks st1 k.
 Proof. apply gc_idem. apply (run_sorted cmds). Qed.
+
+(* GC against an independent predicate: a key of the range carrying a lock with start ts <= safe point makes GC
+   answer the error and change nothing; without such a key GC runs *)
+Lemma gc_refuses_lock_seq cmds s e sp :
+  let st := run cmds in
+  ((exists k l, in_range s e k = true /\ lock_of st k = Some l /\ l_start l <= sp) ->
+   step st (GC s e sp) = (st, RErr (Some (EAbort AGcLock)))) /\
+  (~ (exists k l, in_range s e k = true /\ lock_of st k = Some l /\ l_start l <= sp) ->
+   snd (step st (GC s e sp)) = RErr None).
+Proof.
+  cbv zeta. destruct (run_sorted cmds) as [Hs _]. pose proof (gc_refused_iff (run cmds) s e sp Hs) as Hiff. unfold lock_of.
+  split; intros H; cbn [step]; unfold gc_refused in Hiff.
+  - apply (proj2 Hiff) in H. rewrite H. reflexivity.
+  - destruct (existsb (gc_blocked sp) (keys_in_range (run cmds) s e)) eqn:E; [exfalso; apply H; apply (proj1 Hiff); reflexivity|reflexivity].
+Qed.
